@@ -406,6 +406,15 @@ func (o *obs) genDistances(budget int) {
 		}
 		o.distancesCase("cd:nearly-equal-distances", x, a, b)
 	}
+	// IsUnit but not normalized: b = a scaled by 1 + t, t up to 2e-14 (same direction up to rounding)
+	for i := 0; i < 40*budget; i++ {
+		x, a := o.randUnit(), o.randUnit()
+		b := s2.Point{Vector: a.Mul(1 + rng.Range(-2e-14, 2e-14))}
+		if !b.IsUnit() {
+			continue
+		}
+		o.distancesCase("cd:isunit-not-normalized", x, a, b)
+	}
 	for i := 0; i < 20*budget; i++ {
 		x, a := o.randUnit(), o.randUnit()
 		o.distancesCase("cd:a==b", x, a, a)
